@@ -3,6 +3,7 @@ CONSTANTS
   AckMode = "shaped"
   ThrMode = "pinned"
   EmptyMode = "fixed"
+  RstMode = "pinned"
   CfgSet <- LiveCfgsQ
   Extra = 2
   BothWays = FALSE
